@@ -81,6 +81,18 @@ func (e *orderEngine) step(ws []string) string {
 		}
 		minted := e.v.Ready(ents, true)
 		return "mint=" + fmtHeights(minted) + " " + e.state()
+	case "install": // install <idx> <height>: raft hands over a snapshot (a follower that fell behind); catch-up through the syncer
+		idx, _ := strconv.ParseUint(ws[1], 10, 64)
+		h, _ := strconv.ParseUint(ws[2], 10, 64)
+		le, ap, _, _, _ := e.v.State()
+		if h < le || idx <= ap {
+			return "bad-op" // raft never hands over a snapshot behind what was applied (recoverFromSnapshot would not terminate)
+		}
+		minted, err := e.v.InstallSnapshot(idx, h, e.ledger)
+		if err != nil {
+			return "err " + err.Error()
+		}
+		return "mint=" + fmtHeights(minted) + " " + e.state()
 	case "exec":
 		h := e.v.Execute()
 		if h == 0 {
